@@ -341,8 +341,9 @@ class Report:
     def violation(self, key, what, replay_path):
         e = self.known(key)
         if e is not None:
-            self.known_hits.append((key, what))
-        else:
+            if key not in [k for k, _ in self.known_hits]:
+                self.known_hits.append((key, what))
+        elif key not in [k for k, _, _ in self.violations]:
             self.violations.append((key, what, replay_path))
 
     def inconc(self, name, why):
